@@ -26,7 +26,7 @@ func init() {
 	Register(&Property{
 		ID:             "C14",
 		Run:            runC14,
-		Rule:           "runs = 3-10 archive requests, each parked at every gap between two files while a seeded write burst (new device + first report / registration + first device + report / rotation / reports) is injected, plus request bursts at one simulated instant against the rate limit; every 200 reply is unzipped and checked for record-aligned prefixes, dependency closure, signatures, absence of the private key, and the rate bound; non-trivial = at least one burst was injected inside an archive; distinct = distinct decision signatures",
+		Rule:           "runs = 3-10 archive requests, each parked at every gap between two files while a seeded write burst (new device + first report / registration + first device + report / rotation / reports) is injected, plus nested, paired and staggered requests and request bursts at one simulated instant against the rate limit; every 200 reply is unzipped and checked for record-aligned prefixes, dependency closure, signatures, absence of the private key, and the rate bound; non-trivial = at least one burst was injected inside an archive; distinct = distinct decision signatures",
 		Real:           []string{"ArchiveHandler, addFile, addPubKeyFile, rate limiter", "all write paths used by the bursts", "rotation loop"},
 		Stub:           []string{"socket listeners"},
 		Assumptions:    []string{"one write call is atomic with respect to a concurrent read of the same file (README, File Writing and Archiving): bursts are injected between files, not inside a write"},
